@@ -13,6 +13,7 @@ global size_of usize == 8;
 /*@struct name=SplitMix64 @*/
 
 /// the SplitMix64 output function applied to the (already advanced) state
+#[verifier::opaque]
 spec fn splitmix_out(z: u64) -> u64 {
     let s1 = mul64((z ^ (z >> 30)), 0xBF58_476D_1CE4_E5B9);
     let s2 = mul64((s1 ^ (s1 >> 27)), 0x94D0_49BB_1331_11EB);
@@ -22,6 +23,13 @@ spec fn splitmix_out(z: u64) -> u64 {
 /// multiplication / addition modulo 2^64
 spec fn mul64(a: u64, b: u64) -> u64 { ((a as int * b as int) % 0x1_0000_0000_0000_0000) as u64 }
 spec fn add64(a: u64, b: u64) -> u64 { ((a as int + b as int) % 0x1_0000_0000_0000_0000) as u64 }
+
+/// the SplitMix64 state after k calls of `next` on a generator seeded with `seed`
+spec fn splitmix_state(seed: u64, k: int) -> u64
+    decreases k
+{
+    if k <= 0 { seed } else { add64(splitmix_state(seed, k - 1), 0x9E37_79B9_7F4A_7C15) }
+}
 
 impl SplitMix64 {
     /*@fn impl=SplitMix64 name=new
@@ -34,6 +42,8 @@ impl SplitMix64 {
         r is Some,
         final(self).state == add64(old(self).state, 0x9E37_79B9_7F4A_7C15),
         r->0 == splitmix_out(final(self).state),
+    @fn_start
+        reveal(splitmix_out);
     @*/
 }
 
@@ -61,6 +71,9 @@ impl Xoshiro256StarStar {
     /*@fn impl=Xoshiro256StarStar name=new
     ensures
         r.state@.len() == 4,
+        forall|k: int| 0 <= k < 4 ==> #[trigger] r.state@[k] == splitmix_out(splitmix_state(seed, k + 1)),
+    @fn_start
+        reveal_with_fuel(splitmix_state, 5);
     @*/
 
     /*@fn impl=Xoshiro256StarStar trait=Iterator name=next subst=Self::Item=>u64
